@@ -14,8 +14,8 @@ NOTES = ("Verdicts come only from P-layer clauses of the TLA+ specification eval
          "code; see DESIGN.md sections 2, 5, 6 and the implementation record in section 13. Known findings (fixed / open) "
          "are in /verif/known_findings.json; an open entry suppresses only violations whose failing clause is listed and "
          "whose input satisfies the entry's TLA+ trigger predicate. Seeded changes used to test the machinery are in "
-         "/verif/seeded/. Extension modules beyond the 20 listed properties (./check X01 .. X05: pipeline composition, the "
-         "GenomicArray container, autobin/THetA, the CLI layer, plot data selection) are not registered here.")
+         "/verif/seeded/. Extension modules beyond the 20 listed properties (./check X01 .. X10: pipeline composition, the "
+         "GenomicArray container, autobin/THetA, the CLI layer, plot data selection, HaarSeg, smoothing, the batch pipeline, auxiliary formats, import-rna) are not registered here.")
 
 CHECKS = [
     {"id": "C06", "level": "model_checking",
@@ -169,12 +169,12 @@ CHECKS.append(
      "technique": "TLA+ library of robust statistics in exact limb / 12-digit fixed-point arithmetic (Stats.tla) + content module StatsCheck.tla; TLC exhaustive small scopes replayed into cnvlib.descriptives/smoothing + TLC trace validation of seeded random calls and shift / +-2^k rescale call pairs",
      "design_ref": "DESIGN.md section 8 C19, 13",
      "text": "Stats.tla defines each estimator from its cited formula (weighted median by its half-weight characterisation plus the midpoint rule; biweight location with all "
-             "iterates and the set of admissible stopping rounds; midvariance with the MAD fallback; Qn as the docstring states it; Width2Wing, mirror padding, rolling median). "
+             "iterates and the set of admissible stopping rounds; midvariance with the MAD fallback; Qn as the docstring states it; the mode as the data point of highest Gaussian-KDE density, multiplicities counted; Width2Wing, mirror padding, rolling median). "
              "TLC enumerates all short value x weight vectors / integer signals x widths, checks the modelled code against the clauses (DesignOK), every enumerated state is "
              "replayed into the real functions, and seeded inputs per the quantifier (length 1..400, ties, outlier, all-equal, NaN, dominant/zero/exact-half weights, widths "
              "wider than the signal) are judged by the same clauses; translation and rescaling are judged on recorded pairs of real calls.",
      "note": "Trusted: TLC; the grid decoding k/1024 -> float; the fixed-point encoding of inputs and results. Inputs on a dyadic grid with |x| <= 40; formula agreement for "
-             "biweights and Qn at n <= 60. Not claimed: Kaiser/Savitzky-Golay coefficients, mode formula. Weighted S-G with positive weights only; weighted estimators rescaled "
+             "biweights and Qn at n <= 60. Not claimed: Kaiser/Savitzky-Golay coefficients. The mode is judged against the Gaussian KDE (Scott bandwidth, one kernel per observation) evaluated in fixed point on vectors of <= 40 values with a stated tolerance (1e-7 n on the density score). Weighted S-G with positive weights only; weighted estimators rescaled "
              "by positive factors only. The mode's translation clause admits the mirror image on mirror-symmetric data. MC runs without -coverage."})
 CHECKS.append(
     {"id": "C14", "level": "model_checking",
